@@ -24,8 +24,10 @@ StrPool == { S(<<65279, 97>>), S(<<65279>>), S(<<>>), S(<<97>>), S(<<233>>), S(<
 BytesPool == { Bytes(<<239, 187, 191, 97>>), Bytes(<<>>), Bytes(<<97>>), Bytes(<<195, 169>>), Bytes(<<240, 159, 144, 177>>), Bytes(<<255>>), Bytes(<<195>>), Bytes(<<195, 40>>), Bytes(<<237, 160, 128>>),
                Bytes(<<192, 128>>), Bytes(<<97, 128>>), Bytes(<<244, 144, 128, 128>>), Bytes(<<224, 128, 128>>) }
 TsOf(y, mo, d, sec) == Ts(Join(DaysFromCivil(y, mo, d), sec, 0))
-TsPool == { TsOf(1, 1, 1, 0), TsOf(999, 12, 31, 86399), TsOf(1000, 1, 1, 0), TsOf(1969, 12, 31, 86399), TsOf(1970, 1, 1, 0), TsOf(2000, 2, 29, 43200), TsOf(9999, 12, 31, 86399) }
-DurPool == { Dur(x) : x \in { Z, Mega, Neg(Mega), DurLimUs, Neg(DurLimUs), Mul(FromInt(3661), Mega) } }
+TsPool == { TsOf(1, 1, 1, 0), TsOf(999, 12, 31, 86399), TsOf(1000, 1, 1, 0), TsOf(1969, 12, 31, 86399), TsOf(1970, 1, 1, 0), TsOf(2000, 2, 29, 43200), TsOf(9999, 12, 31, 86399),
+            Ts(Join(DaysFromCivil(2009, 2, 13), 84690, 500000)), Ts(Join(DaysFromCivil(2009, 2, 13), 84690, 123456)), Ts(Join(DaysFromCivil(1969, 12, 31), 86399, 999999)) }      \* with a fraction of a second
+DurPool == { Dur(x) : x \in { Z, Mega, Neg(Mega), DurLimUs, Neg(DurLimUs), Mul(FromInt(3661), Mega),
+                             FromInt(1500000), FromInt(-1500000), One, FromInt(-1), FromInt(-250000), Sub(DurLimUs, One) } }      \* with a fraction of a second
 C(s) == [j \in 1..Len(s) |-> s[j]]
 TsTexts == { S(Rfc3339(BigOf(t))) : t \in TsPool } \cup
    { S(<<50,48,50,48,45,48,50,45,51,48,84,48,48,58,48,48,58,48,48,90>>),                 \* 2020-02-30T00:00:00Z  (no such day)
